@@ -538,7 +538,7 @@ func (r *runtimeT) clockPending() (int64, bool) {
 		}
 	}
 	for _, ts := range r.timers {
-		if ts.active && !ts.fired && ts.deadline > r.now {
+		if ts.active && ts.deadline > r.now {
 			if !found || ts.deadline < min {
 				min, found = ts.deadline, true
 			}
@@ -703,8 +703,9 @@ func (r *runtimeT) loop() *Result {
 			d, _ := r.clockPending()
 			r.now = d
 			for _, ts := range r.timers {
-				if ts.active && !ts.fired && ts.deadline <= r.now {
+				if ts.active && ts.deadline <= r.now {
 					ts.fired = true
+					ts.active = false
 				}
 			}
 			r.traceHash = mix(r.traceHash, 0xc10c)
@@ -820,7 +821,7 @@ func (r *runtimeT) loop() *Result {
 			r.record(t, p.kind, 0, p.obj)
 		case OpRecv:
 			if ts := r.timers[p.obj]; ts != nil && ts.fired {
-				ts.fired, ts.active = false, false
+				ts.fired = false
 				resp.flag = true
 				resp.val = r.now
 			}
@@ -832,7 +833,7 @@ func (r *runtimeT) loop() *Result {
 		case OpSelect:
 			o := p.objs[e.alt]
 			if ts := r.timers[o]; ts != nil && ts.fired {
-				ts.fired, ts.active = false, false
+				ts.fired = false
 				resp.flag = true
 				resp.val = r.now
 			}
@@ -843,16 +844,24 @@ func (r *runtimeT) loop() *Result {
 			resp.val = r.now
 			r.record(t, p.kind, 0, clockObj)
 		case OpTimerNew:
-			r.timers[p.obj] = &timerState{deadline: r.now + p.n, active: true}
+			// (re)arm the timer on this channel. A value that an earlier expiry left in the channel stays
+			// there: the pre-Go-1.23 timer semantics, which a program whose main module declares go < 1.23
+			// (go-res itself declares 1.18) still gets; they are a superset of the newer behaviour.
+			stale := false
+			if ts := r.timers[p.obj]; ts != nil {
+				stale = ts.fired
+			}
+			r.timers[p.obj] = &timerState{deadline: r.now + p.n, active: true, fired: stale}
 			if p.n <= 0 {
 				r.timers[p.obj].fired = true
+				r.timers[p.obj].active = false
 			}
 			r.record(t, p.kind, 0, p.obj, clockObj)
 		case OpTimerStop:
 			if ts := r.timers[p.obj]; ts != nil {
-				resp.flag = ts.active && !ts.fired
+				resp.flag = ts.active
 				ts.active = false
-				ts.fired = false
+				// an expiry already delivered to the channel is not taken back
 			}
 			r.record(t, p.kind, 0, p.obj, clockObj)
 		default:
